@@ -969,6 +969,10 @@ func (n *node) Kill(pid gen.PID) error {
 	case int32(gen.ProcessStateTerminated):
 		atomic.StoreInt32(&p.state, int32(gen.ProcessStateTerminated))
 		return nil
+	case int32(gen.ProcessStateZombee):
+		// already killed. termination is finalized by the process goroutine
+		// (or by the first killer), not here
+		return nil
 	}
 
 	lib.VerifPoint("proc.kill.term", pid)
